@@ -135,22 +135,25 @@ def parseMaster (input : Str) : Res MasterPlaylist :=
   | .err => .err
   | .panic => .panic
 
-def MasterPlaylist.requiredVersion (p : MasterPlaylist) : ProtocolVersion :=
+def MasterPlaylist.requiredVersion (p : MasterPlaylist) : Nat :=
   maxVersion [1, 1, maxVersion (p.media.map ExtXMedia.requiredVersion), 1, 1,
     maxVersion (p.session_keys.map DecryptionKey.requiredVersion)]
 
-def MasterPlaylist.show (p : MasterPlaylist) : Str :=
-  pfxM3u ++ ['\n']
-  ++ (if p.requiredVersion != 1 then ExtXVersion.show p.requiredVersion ++ ['\n'] else [])
-  ++ (p.media.flatMap fun m => m.show ++ ['\n'])
-  ++ (p.variant_streams.flatMap fun v => v.show ++ ['\n'])
-  ++ (p.session_data.flatMap fun d => d.show ++ ['\n'])
-  ++ (p.session_keys.flatMap fun k => ExtXSessionKey.show k ++ ['\n'])
-  ++ (if p.has_independent_segments then pfxIndependentSegments ++ ['\n'] else [])
+/-- `Display for MasterPlaylist` as typed lines (everything after the `#EXTM3U` line) -/
+def MasterPlaylist.writeLines (p : MasterPlaylist) : List Line :=
+  (if p.requiredVersion != 1 then [Line.version p.requiredVersion] else [])
+  ++ p.media.map Line.media
+  ++ p.variant_streams.map Line.variant
+  ++ p.session_data.map Line.sessionData
+  ++ p.session_keys.map Line.sessionKey
+  ++ (if p.has_independent_segments then [Line.independentSegments] else [])
   ++ (match p.start with
-      | some s => s.show ++ ['\n']
+      | some s => [Line.start s]
       | none => [])
-  ++ (p.unknown_tags.flatMap fun u => u ++ ['\n'])
+  ++ p.unknown_tags.map Line.unknown
+
+/-- `to_string()` -/
+def MasterPlaylist.show (p : MasterPlaylist) : Str := pfxM3u ++ ['\n'] ++ renderLines p.writeLines
 
 /-- `associated_with`: indices of the renditions the variant references -/
 def MasterPlaylist.associatedWith (p : MasterPlaylist) (v : VariantStream) : List Nat :=
